@@ -69,7 +69,39 @@ func Load(r io.Reader) {
 	}
 	sort.Slice(Ints, func(i, j int) bool { return Ints[i] < Ints[j] })
 	sort.Slice(NovelInts, func(i, j int) bool { return NovelInts[i] < NovelInts[j] })
+	synthesize()
 	Loaded = true
+}
+
+// synthesize: an edit may spell a byte sequence it recognises as separate one-byte constants (0xaa, 0xaa, 0x03) instead
+// of a literal. When the tree has a few novel one-byte constants, every sequence of three of them (with repetition)
+// becomes a novel token, alone and behind a 16-bit value just below the smallest novel 16-bit constant (a length-like
+// field in front of the sequence).
+func synthesize() {
+	var bs []byte
+	var small16 []uint64
+	for _, v := range NovelInts {
+		switch {
+		case v >= 1 && v <= 0xff:
+			bs = append(bs, byte(v))
+		case v > 0xff && v <= 0xffff:
+			small16 = append(small16, v)
+		}
+	}
+	if len(bs) == 0 || len(bs) > 3 {
+		return
+	}
+	for _, a := range bs {
+		for _, b := range bs {
+			for _, c := range bs {
+				NovelTokens = append(NovelTokens, []byte{a, b, c})
+				if len(small16) > 0 {
+					w := small16[0] - 1
+					NovelTokens = append(NovelTokens, []byte{byte(w >> 8), byte(w), a, b, c})
+				}
+			}
+		}
+	}
 }
 
 // CountLE returns how many entries of a sorted list are <= max.
